@@ -137,7 +137,7 @@ def handle : List String → String
     | _, _ => "bad-op"
   | ["dec", m, k] =>
     match m.toNat?, k.toNat? with
-    | some m, some k => showFloat (FloatOps.ofDec m k : Float)
+    | some m, some k => showFloat (FloatOps.ofDec m (-(k : Int)) : Float)
     | _, _ => "bad-op"
   | ["fmod", a, b] =>
     match hexToNat a, hexToNat b with
